@@ -1,4 +1,4 @@
-From LV Require Import Machine.Syntax Machine.Lex Machine.Sem Machine.TxScriptCore.
-NAMES run all_postings bget valid_address valid_asset lexer_asset tx_run
+From LV Require Import Machine.Syntax Machine.Lex Machine.Sem Machine.TxScriptCore Machine.Vm Machine.Compile Machine.VmRun.
+NAMES run all_postings bget valid_address valid_asset lexer_asset parse_portion tx_run compile encode run_program vm_run
 UNIT ns
 GLUE nsrun.ml
